@@ -1175,6 +1175,8 @@ impl<'a> GeneratorState<'a> {
                     .syntax_error("Unsupported cycle sleep value", pos))
             }
         };
+        // DEC and PLA change N and Z: they no longer describe what was loaded or stored before
+        self.flags = FlagsState::Unknown;
         Ok(())
     }
 
